@@ -8,7 +8,7 @@ MISMATCHES = "mismatches_C14"
 VIOLATIONS = "violations_C14"
 KNOWN = None
 SHARD = 40
-RULE = ("names of filecmp.DEFAULT_IGNORES on both sides with equal size and mtime but different content; file / directory clashes at the top level and nested, user files named like the state point / document in sub-directories, a caller-owned exclude list reused across two calls, deep syncs after an earlier deep comparison of the same paths followed by a same-size same-mtime change (filecmp cache not cleared by the harness); key strategy callbacks that raise KeyboardInterrupt / SystemExit after earlier keys were merged; conflict-oriented seeded random pairs of the C13 universe (half of the shared files differ: same size / different size, "
+RULE = ("top-level user files whose names are proper substrings of the job's own file names (state, json, signac, point.json, document ...) x document strategy incl. DocSync.COPY; permission bits other than the umask default on counterpart / one-sided / nested files and in cloned jobs x preserve_permissions / preserve_times x collect_stats (bits observed before and after, next to the trees); names of filecmp.DEFAULT_IGNORES on both sides with equal size and mtime but different content; file / directory clashes at the top level and nested, user files named like the state point / document in sub-directories, a caller-owned exclude list reused across two calls, deep syncs after an earlier deep comparison of the same paths followed by a same-size same-mtime change (filecmp cache not cleared by the harness); key strategy callbacks that raise KeyboardInterrupt / SystemExit after earlier keys were merged; conflict-oriented seeded random pairs of the C13 universe (half of the shared files differ: same size / different size, "
         "older / equal / newer mtime, top level and nested; half of the shared document keys differ: flat, nested, mixed-type) x "
         "all strategies and key strategies (None, predicate, regex) x job-level and project-level entry points; plus two bounded-"
         "exhaustive cores: one shared file (3 content relations x 4 mtime relations x 6 strategies x 2 depths x recursive x entry) "
@@ -25,7 +25,7 @@ TRUSTED = [
     "source are compared there (the worker threads are joined before the snapshot: ThreadPool.terminate() does not)",
 ]
 ASSUMPTIONS = ["both workspaces are valid (directory name = id of the state point file)", "no symbolic links",
-               "file mtimes precede the call (set explicitly with os.utime); preserve_* / follow_symlinks at their defaults",
+               "file mtimes precede the call (set explicitly with os.utime); preserve_owner / preserve_group / follow_symlinks at their defaults; permission bits are set on user files only (owner read/write always set)",
                "document keys are distinct and contain no '.'"]
 
 
@@ -37,7 +37,7 @@ def gen_inputs(tier, rng):
     if tier == "quick":
         files, docs = rng.sample(files, 140), rng.sample(docs, 140)
         nested, backup = rng.sample(nested, 100), rng.sample(backup, 80)
-    return descs + files + docs + nested + backup + _excl(tier, rng) + _round3(tier, rng) + _round4(tier, rng) + _round6(tier, rng) + sync_gen.core_reuse_cases()
+    return descs + files + docs + nested + backup + _excl(tier, rng) + _round3(tier, rng) + _round4(tier, rng) + _round6(tier, rng) + _round7(tier, rng) + sync_gen.core_reuse_cases()
 
 def _round3(tier, rng):
     cases = sync_gen.core_fault_cases()
@@ -48,6 +48,13 @@ def _round3(tier, rng):
 def _round4(tier, rng):
     cases = sync_gen.core_clash_cases() + sync_gen.core_deep_history_cases()
     return cases if tier != "quick" else rng.sample(cases, 130)
+
+
+def _round7(tier, rng):
+    own, perm = sync_gen.core_ownname_cases((False,)), sync_gen.core_perm_cases((False,))
+    if tier == "quick":
+        own, perm = rng.sample(own, 30), rng.sample(perm, 30)
+    return own + perm
 
 
 def _round6(tier, rng):
